@@ -1869,11 +1869,12 @@ where
             streams.push(stream.verif_json());
         });
         format!(
-            "{{{},{},{},\"store_len\":{},\"send_buffer_len\":{},\"refs\":{},\"conn_error\":{},\"streams\":[{}]}}",
+            "{{{},{},{},\"store_len\":{},\"slab_len\":{},\"send_buffer_len\":{},\"refs\":{},\"conn_error\":{},\"streams\":[{}]}}",
             me.counts.verif_json(),
             me.actions.recv.verif_json(),
             me.actions.send.verif_json(),
             streams.len(),
+            me.store.verif_slab_len(),
             send_buffer.verif_len(),
             me.refs,
             me.actions.conn_error.is_some(),
